@@ -95,6 +95,27 @@ theorem remove_step {s t : St} (h : Reach s) (k : Nat) (st : apply s (.remove k)
   · grind
   · grind [setEnt, setKey, stopTimer, b2n]
 
+/-- Entries are told apart by identity, not by key: the timer goroutine of an entry that Remove or
+    Clear has already taken (its timer had fired, so it is still queued on the mutex) changes nothing
+    in the map when it finally gets the lock — in particular it does not evict a NEW entry that was
+    added under the same key in the meantime — and it runs no callback. -/
+theorem stale_timer_spares_readded_key {s t : St} (h : Reach s) (id : Nat) (hid : id < s.n)
+    (hf : (s.ent id).tm = .fired) (htaken : (s.ent id).removed + (s.ent id).cleared ≥ 1)
+    (st : apply s (.timerLock id) = some t) :
+    t.cache = s.cache ∧ (t.ent id).tm = .done ∧ (t.ent id).cbRuns = (s.ent id).cbRuns ∧
+    (∀ j, j ≠ id → t.ent j = s.ent j) := by
+  obtain ⟨a1, a2, a3, a4, a5⟩ := (reach_inv h).ent id
+  have a2 := a2 hid
+  have hd : (s.ent id).deleted = true := by
+    cases hdel : (s.ent id).deleted with
+    | true => rfl
+    | false => simp [b2n, hf, hdel] at a2; omega
+  simp only [apply] at st
+  rw [if_pos ⟨hid, hf⟩, if_pos hd] at st
+  simp at st; subst st
+  refine ⟨rfl, by simp [setEnt], by simp [setEnt], ?_⟩
+  intro j hj; simp [setEnt, hj]
+
 /-- Clear's loop `for key := range c.cache` visits entry `id` iff the key stored in the entry maps
     to it (justifies the pointwise form of rule `clear`). -/
 theorem clear_visits_iff {s : St} (h : Reach s) (id : Nat) :
@@ -120,6 +141,10 @@ example : ((run init [.add 7 1, .timerFire 0, .remove 7, .timerLock 0, .timerCal
 example : ((run init [.add 7 1, .timerFire 0, .remove 7, .timerLock 0]).ent 0).tm = .done := by decide
 example : ((run init [.add 7 1, .timerFire 0, .clear true, .timerLock 0, .clearCall 0, .clearCall 0]).ent 0).cbRuns = 1 := by decide
 example : ((run init [.add 7 1, .remove 7, .add 7 2, .timerFire 1, .timerLock 1]).cache 7) = none := by decide
+-- the key is re-added while the removed entry's timer goroutine is still queued: the new entry survives
+example : ((run init [.add 7 1, .timerFire 0, .remove 7, .add 7 2, .timerLock 0, .timerCall 0]).cache 7) = some 1 := by decide
+example : ((run init [.add 7 1, .timerFire 0, .remove 7, .add 7 2, .timerLock 0, .timerCall 0]).ent 0).cbRuns = 0 := by decide
+example : ((run init [.add 7 1, .timerFire 0, .clear true, .clearCall 0, .add 7 2, .timerLock 0, .timerCall 0]).ent 0).cbRuns = 1 := by decide
 end Cache
 
 /-! ## Event -/
